@@ -37,7 +37,7 @@ def plan(tier):
     return {
         "sweeps": sweeps,
         "exhaustive": f"all byte strings of length 1..{L} over the 16-symbol alphabet x all 2^(n-1) chunkings",
-        "random": [("mutated", {"n": 200}, 12), ("flood", {"mb": 1 if tier == "quick" else 4}, 1), ("link", {}, 12)],
+        "random": [("mutated", {"n": 200}, 12), ("flood", {"mb": 1 if tier == "quick" else 4}, 1), ("link", {}, 12), ("soak", {}, 2)],
         "runs": 2500 if tier == "quick" else None,
         "budget_s": 60 if tier == "quick" else 900,
         "batch": 25,
@@ -257,6 +257,11 @@ def run_flood(params, tape):
 
 
 def run(scenario, params, tape, detail=False):
+    if scenario == "soak":
+        # the whole-stack soak (dst/soak.py); this check reports the clauses of its own property from it (nothing escapes a receive callback)
+        from .. import soak
+
+        return soak.run(params, tape, detail=detail)
     if scenario == "link":
         # the receiver embedded in a live link (engine E1: host sends in flight, faulty line, reads spanning frame boundaries),
         # compared with the reference receiver fed the same bytes; nothing may escape data_received there either
